@@ -151,7 +151,7 @@ func cmdCheck(args []string) int {
 		fmt.Fprintf(os.Stderr, "INCONCLUSIVE property=%s reason=known_findings.json unreadable: %v\n", *prop, err)
 		return 2
 	}
-	cfg := &Config{Tier: *tier, QueryMs: 20000, EscalateSec: 60, Unwind: 400, MaxSteps: 3000000, MaxAlloc: 1024, ConcCap: 64,
+	cfg := &Config{Tier: *tier, QueryMs: 20000, EscalateSec: 30, Unwind: 400, MaxSteps: 3000000, MaxAlloc: 1024, ConcCap: 64,
 		Workers: *workers, KnownOpen: map[string]bool{}, Verbose: *verbose, MaxViolPerID: 2, BudgetSec: 600}
 	if *tier == "thorough" {
 		cfg.QueryMs = 120000
